@@ -319,6 +319,11 @@ class C12(Prop):
                 degraded = False
                 flavour = None
 
+        small_items = not degraded and rng.random() < 0.2
+        if small_items:
+            for n in nodes:
+                n["opts"] = dict(n.get("opts") or {}, item_max=2048)
+
         def some(lo=0, hi=8):
             n = rng.randint(lo, min(hi, len(keys)))
             ks = rng.sample(keys, n)
@@ -339,6 +344,11 @@ class C12(Prop):
             if m in ("set", "add", "replace", "append", "prepend"):
                 a = [E(key), E(val())]
                 k["noreply"] = rng.choice([False, False, True])
+                if small_items and m in ("set", "add", "replace") and rng.random() < 0.15:
+                    # refused by the server with SERVER_ERROR object too large - an ordinary reply on a healthy
+                    # connection, which says nothing about the server's health
+                    a = [E(key), E(b"L" * rng.choice([2049, 3000, 5000]))]
+                    k["noreply"] = False
                 written.append(key)
             elif m == "set_many":
                 ks = list(dict.fromkeys(some(1, 10)))
@@ -531,7 +541,7 @@ class C12(Prop):
                 "duplicate-key-in-multi-get", "empty-key-collection", "fifty-keys",
                 "server-added-at-run-time", "owning-server-in-retry-window",
                 "workload-meets-failing-server", "multi-key-call-first-after-dead_timeout",
-                "another-hashclient-evicts-its-own-server")
+                "another-hashclient-evicts-its-own-server", "server-error-reply-then-more-traffic")
 
     def probes(self, scn, res):
         p = {}
@@ -546,6 +556,8 @@ class C12(Prop):
             p["workload-meets-failing-server"] = 1
         if scn.get("flavour") == "revival":
             p["multi-key-call-first-after-dead_timeout"] = 1
+        if any(c.outcome == "raise" and type(c.exc).__name__ == "MemcacheServerError" for c in res.calls[:-1]):
+            p["server-error-reply-then-more-traffic"] = 1
         if w.get("bystanders") and any(st.get("by") is not None for st in scn["steps"]):
             p["another-hashclient-evicts-its-own-server"] = 1
         if any(c.method == "add_server" and c.outcome == "return" for c in res.calls):
